@@ -165,12 +165,12 @@ static Verdict runCase(const OpSeq& c, Info& info)
     for (const auto& op : c.ops)
         if (op.op == 3 || op.op == 5 || op.op == 6)
             for (const auto& r : op.batch.packets)
+            {
+                if (r.kind == rkGeneric && r.msgType == 0)
+                    info.tag("batch_with_packet_of_message_type_0");
                 if (r.kind == rkGeneric && r.emptyPayload)
-                {
                     info.tag("batch_with_zero_length_payload_packet");
-                    goto tagged;
-                }
-tagged:
+            }
     if (encodeAfterChange)
         info.tag("encode_after_id_change_or_restart");
     info.nontrivial = wrapped || encodeAfterChange;
@@ -208,6 +208,19 @@ static rc::Gen<OpSeq> genCase(int tier)
             else if (op.op >= 3)
             {
                 op.batch = *genEncCase(p);
+                // one batch in eight opens with (or holds) a packet of message type 0 - "undefined", what the decoder hands out for
+                // payloads it rejected, and the encoder's own marker for "no message type yet"; its frames must announce type 0
+                if (*range<int>(0, 7) == 0)
+                {
+                    PacketRecipe u;
+                    u.kind = rkGeneric;
+                    u.msgType = 0;
+                    u.ptype = *rc::gen::element<uint8_t>(0x20, 0x01, 0xFF);  // not 0: a message with payload type byte 0 reads as padding, the frame walker of this check stops there
+                    u.len = *range<uint32_t>(1, 40);
+                    u.seed = *rc::gen::arbitrary<uint32_t>();
+                    size_t at = *rc::gen::weightedOneOf<size_t>({{3, rc::gen::just<size_t>(0)}, {1, range<size_t>(0, op.batch.packets.size())}});
+                    op.batch.packets.insert(op.batch.packets.begin() + static_cast<std::ptrdiff_t>(at), u);
+                }
                 // a third of the batches hold packets with a zero-length payload (e.g. a control message without data) at the
                 // start, the end or between packets of another message type: they carry no message but may open a frame
                 if (*range<int>(0, 2) == 0)
